@@ -836,11 +836,14 @@ class WorkflowConductor(object):
         if not in_ctx_idxs:
             in_ctx_idxs = [0]
 
+        # Keep copies of the list of contexts and of the previous tasks. The given ones belong
+        # to the staged task entry, which is still updated when other branches arrive at the
+        # task, and that must not alter the record of an execution that has already started.
         task_state_entry = {
             "id": task_id,
             "route": route,
-            "ctxs": {"in": in_ctx_idxs},
-            "prev": prev or {},
+            "ctxs": {"in": json_util.deepcopy(in_ctx_idxs)},
+            "prev": json_util.deepcopy(prev) if prev else {},
             "next": {},
         }
 
